@@ -339,6 +339,23 @@ def run(ctx, col: Collector):
         if not (isinstance(call, ast.Call) and norm(call.func) == 'Table'):
             raise Unrecognised('join_table does not return Table(...)', rets[0])
         kw = {k.arg: k.value for k in call.keywords}
+        # a local that holds `self.table1` / `self.table2` (read once, e.g. through an assignment expression) stands for that attribute
+        held = {}
+        for n in ast.walk(jt.node):
+            if isinstance(n, (ast.Assign, ast.NamedExpr)):
+                tg = n.targets[0] if isinstance(n, ast.Assign) and len(n.targets) == 1 else (n.target if isinstance(n, ast.NamedExpr) else None)
+                if isinstance(tg, ast.Name) and norm(n.value) in ('self.table1', 'self.table2'):
+                    held.setdefault(tg.id, set()).add(norm(n.value))
+        held = {k_: next(iter(v_)) for k_, v_ in held.items() if len(v_) == 1}
+        if held:
+            import copy as _cp
+
+            class _H(ast.NodeTransformer):
+                def visit_Name(self_, n):
+                    if isinstance(n.ctx, ast.Load) and n.id in held:
+                        return ast.copy_location(ast.parse(held[n.id], mode='eval').body, n)
+                    return n
+            kw = {k_: _H().visit(_cp.deepcopy(v_)) for k_, v_ in kw.items()}
         nm = kw.get('name')
         okn = isinstance(nm, ast.JoinedStr) and [norm(v.value) if isinstance(v, ast.FormattedValue) else v.value for v in nm.values] == ['self.table1.name', '_', 'self.table2.name']
         col.check(okn, 'C04-join', 'join_table:name', 'named <left>_<right>', f'join table name is `{norm(nm) if nm is not None else "?"}`, expected f"{{self.table1.name}}_{{self.table2.name}}"',
